@@ -477,6 +477,47 @@ class Fn:
             if any(x['k'] == 'deref' for x in cs.t['dest']['p']):
                 yield cs.pos, cs.t['dest'], None
 
+    def reaching_defs(self, l, pos):
+        """Definitions of whole local `l` that may reach program point `pos` (flow-sensitive):
+        list of ('entry', None) and/or (kind, Pos) entries."""
+        ds = [(k, p) for (k, o, p, proj) in self.defs().get(l, []) if not proj]
+        dpos = [p for k, p in ds]
+        out = []
+
+        def reaches(start, is_entry=False):
+            # path from just after `start` to pos without crossing another def of l
+            others = [p for p in dpos if is_entry or p != start]
+            by_block = collections.defaultdict(list)
+            for p in others:
+                by_block[p.bb].append(p.idx)
+            sb, si = (0, -1) if is_entry else (start.bb, start.idx)
+            if sb == pos.bb and si < pos.idx and not any(si < i < pos.idx for i in by_block.get(sb, [])):
+                return True
+            if any(i > si for i in by_block.get(sb, [])):
+                return False
+            seen = set()
+            st = list(self.succs()[sb])
+            while st:
+                b = st.pop()
+                if b in seen:
+                    continue
+                seen.add(b)
+                idxs = by_block.get(b, [])
+                if b == pos.bb:
+                    if not any(i < pos.idx for i in idxs):
+                        return True
+                    continue
+                if idxs:
+                    continue
+                st.extend(self.succs()[b])
+            return False
+        if 1 <= l <= self.argc and reaches(None, True):
+            out.append(('entry', None))
+        for k, p in ds:
+            if reaches(p):
+                out.append((k, p))
+        return out
+
     def local_name(self, l):
         return self.debug.get(l)
 
